@@ -899,6 +899,14 @@ def emit(prog, before_main=None):
     for h in prog.get("hosts", []):
         em.w("#host")
         em.w("fn %s(%s) -> %s" % (h["name"], ", ".join("h%d: %s" % (i, t) for i, t in enumerate(h["params"])), h["ret"]))
+    def main_part():
+        for ln in before_main or []:
+            em.w(ln)
+        emit_stmts(em, prog["main"], linemap)
+
+    # declarations may follow the statements that use them: the program is the same
+    if prog.get("decls_last"):
+        main_part()
     for name, fields in prog["structs"].items():
         em.w("type %s = {" % name)
         for f, t in fields:
@@ -940,9 +948,8 @@ def emit(prog, before_main=None):
         em.w("}")
         em.ind -= 1
         em.w("}")
-    for ln in before_main or []:
-        em.w(ln)
-    emit_stmts(em, prog["main"], linemap)
+    if not prog.get("decls_last"):
+        main_part()
     return "\n".join(em.lines) + "\n", linemap
 
 
@@ -985,7 +992,18 @@ class Gen:
         self.scopes.append(Scope())
 
     def pop(self):
-        self.scopes.pop()
+        self.last_popped = self.scopes.pop()
+        return self.last_popped
+
+    def probe_after_scope(self, popped):
+        """-> [print of an outer variable that a declaration inside the just-closed scope shadowed]:
+        after the scope the name means the outer binding again"""
+        outer = {n: (t, m) for (n, t, m) in self.visible()}
+        for (n, t, m) in popped.vars:
+            if n in outer and printable(outer[n][0]) and outer[n][0] != VOID:
+                self.features.add("use-after-shadowing-scope")
+                return [("print", ("var", outer[n][0], n), True)]
+        return []
 
     def declare(self, name, ty, mut):
         self.scopes[-1].vars.append((name, ty, mut))
@@ -1595,7 +1613,7 @@ class Gen:
             t = self.rand_type(2, allow_fn=True)
             mut = r.chance(60 if self.cfg.get("lambda_focus") else 35) and t[0] != "fn"
             shadowable = [v[0] for v in self.visible() if v[0][0] in "xd"]
-            n = self.fresh("x") if not r.chance(12) or not shadowable else r.choice(shadowable)
+            n = self.fresh("x") if not r.chance(12 if len(self.scopes) < 2 else 22) or not shadowable else r.choice(shadowable)
             e = self.expr(t, d - 1) if not (t[0] == "array" and r.chance(25)) else ("array", t, [])
             annotate = True if (e[0] == "array" and not e[2]) or t[0] in ("option", "result", "array", "fn", "enum") or r.chance(30) else False
             if e[0] == "variant" and e[2] not in ("option", "result"):
@@ -1623,9 +1641,14 @@ class Gen:
         if k < 58:
             # if statement
             self.features.add("if-stmt")
-            e = ("if", VOID, self.expr(BOOL, d - 1), self.block(VOID, d - 1, r.range(1, 3)),
-                 self.block(VOID, d - 1, r.range(1, 2)) if r.chance(50) else None)
-            return [("expr", e)]
+            cnd = self.expr(BOOL, d - 1)
+            thn = self.block(VOID, d - 1, r.range(1, 3))
+            after = self.probe_after_scope(self.last_popped)
+            els = self.block(VOID, d - 1, r.range(1, 2)) if r.chance(50) else None
+            if els is not None and not after:
+                after = self.probe_after_scope(self.last_popped)
+            e = ("if", VOID, cnd, thn, els)
+            return [("expr", e)] + after
         if k < 66 and d >= 2:
             return self.while_stmt(d)
         if k < 76 and d >= 2:
@@ -1757,13 +1780,13 @@ class Gen:
             s = self.stmt(d - 1)
             if s:
                 body.extend(s)
-        self.pop()
+        after = self.probe_after_scope(self.pop())
         self.loop_depth -= 1
         cond = ("bin", BOOL, "<", ("var", INT, cnt), ("lit", INT, bound))
         if r.chance(30):
             cond = ("bin", BOOL, "and", cond, self.expr(BOOL, 1))
         self.features.add("while")
-        return [("let", cnt, INT, ("lit", INT, 0), True, False), ("while", cond, body)]
+        return [("let", cnt, INT, ("lit", INT, 0), True, False), ("while", cond, body)] + after
 
     def for_stmt(self, d):
         r = self.r
@@ -1809,10 +1832,10 @@ class Gen:
             s = self.stmt(d - 1)
             if s:
                 body.extend(s)
-        self.pop()
+        after = self.probe_after_scope(self.pop())
         self.loop_depth -= 1
         self.features.add("for-" + kind)
-        return [("for", pat, kind, itexpr, body)]
+        return [("for", pat, kind, itexpr, body)] + after
 
     # -- functions
     # -- generic functions: parametric bodies, instantiated at the call sites -------------------
@@ -2046,7 +2069,10 @@ class Gen:
         else:
             main.append(self.print_stmt(2))
             self.final_ty = None
-        return {"structs": self.structs, "enums": self.enums, "funcs": self.funcs + self.generics, "main": main,
+        decls_last = self.cfg.get("decls_last", True) and r.chance(25)
+        if decls_last:
+            self.features.add("declarations-after-main")
+        return {"decls_last": decls_last, "structs": self.structs, "enums": self.enums, "funcs": self.funcs + self.generics, "main": main,
                 "final_ty": self.final_ty, "features": sorted(self.features), "hosts": self.hosts}
 
 
